@@ -30,6 +30,10 @@ pub fn gen_case(t: &mut Tape, tier: Tier) -> Option<Case> {
     Some(Case { a: Phys { g, kin, x, classes: classes.into_iter().map(String::from).collect() }, kin2 })
 }
 
+/// the fresh evaluation used a freshly built (not a restored) sampler for this case
+fn hx_fresh(p: &Phys) -> bool {
+    p.x.iter().fold(0u64, |a, v| a.wrapping_mul(31).wrapping_add(v.to_bits())) % 4 != 1
+}
 pub fn assert_v(c: &Phys, ev: &Eval, ctx: &mut Ctx) -> Result<bool, Failure> {
     let (ne, nl) = (ev.ne, ev.nl);
     let d = c.g.d;
@@ -134,6 +138,20 @@ fn check_d<const D: usize>(c: &Case, ctx: &mut Ctx) -> Result<(), Failure> {
                         }
                         ctx.label("scaling-relation-checked");
                     }
+                }
+            }
+        }
+    }
+    // a sampler must not remember the edge data of an earlier call: evaluate once with all masses zero, then with
+    // the real masses, and compare with the fresh evaluation above
+    {
+        let g = &c.a.g;
+        if let Ok(s) = sut::build::<D>(g, c.a.kin.sig.clone()) {
+            let zero = vec![0.0; g.nedges()];
+            let _ = sut::sample_f64(&s, &c.a.x, sut::edge_data::<D>(&g.massive, &zero, &c.a.kin.shifts), None, false, false);
+            if let Ok(o) = sut::sample_f64(&s, &c.a.x, sut::edge_data::<D>(&g.massive, &c.a.kin.masses, &c.a.kin.shifts), None, false, false) {
+                if o.bits() != ev.out.bits() && hx_fresh(&c.a) {
+                    fail!("edge-data-remembered", "after one evaluation with all masses zero, the same sampler gives a different result for the real masses than a fresh sampler: v = {:e} vs {:e}; case {c:?}", o.v, ev.out.v);
                 }
             }
         }
